@@ -6,7 +6,7 @@
 set -u
 P=$1; M=$2; shift 2
 CHECKS="${*:-$P}"
-SRC=/tmp/mut/$P-out/$M; [ -d "$SRC" ] || SRC=/tmp/mut/$P-out2/$M; [ -d "$SRC" ] || SRC=/tmp/mut/$P-out3/$M; [ -d "$SRC" ] || SRC=/tmp/mut/$P-out4/$M; [ -d "$SRC" ] || SRC=/tmp/mut/$P-out5/$M; [ -d "$SRC" ] || SRC=/tmp/mut/$P-out6/$M
+SRC=/tmp/mut/$P-out/$M; [ -d "$SRC" ] || SRC=/tmp/mut/$P-out2/$M; [ -d "$SRC" ] || SRC=/tmp/mut/$P-out3/$M; [ -d "$SRC" ] || SRC=/tmp/mut/$P-out4/$M; [ -d "$SRC" ] || SRC=/tmp/mut/$P-out5/$M; [ -d "$SRC" ] || SRC=/tmp/mut/$P-out6/$M; [ -d "$SRC" ] || SRC=/tmp/mut/$P-out7/$M
 WT=/tmp/mut/$P
 DST=/verif/seeded/$P-$M
 export CARGO_NET_OFFLINE=true CARGO_TARGET_DIR=$WT/target
